@@ -1067,9 +1067,28 @@ class Interp:
         return out
 
     def e_GeneratorExp(self, node, env):
-        out = []
-        self._comp(node.generators, env, lambda sc: out.append(self.eval(node.elt, sc)))
-        return iter(out)
+        """Python semantics: the outermost iterable is evaluated now, everything else when the consumer asks for the next
+        item (picosvg relies on this: _swap_elements(<genexp calling _unnest_svg>) inserts each result before the next
+        _unnest_svg chooses its id)."""
+        gens = node.generators
+        first = self.iterate(self.eval(gens[0].iter, env))
+        scope0 = Env({}, env, env.globals)
+
+        def lazy():
+            def rec(i, scope, it=None):
+                g = gens[i]
+                for item in (it if it is not None else self.iterate(self.eval(g.iter, scope))):
+                    self._tick()
+                    self.assign(g.target, item, scope)
+                    if all(self.truth(self.eval(c, scope)) for c in g.ifs):
+                        if i + 1 == len(gens):
+                            yield self.eval(node.elt, scope)
+                        else:
+                            yield from rec(i + 1, scope)
+
+            yield from rec(0, scope0, first)
+
+        return lazy()
 
     def e_SetComp(self, node, env):
         out = []
